@@ -2,6 +2,7 @@ package cmd
 
 import (
 	"fmt"
+	"sort"
 	"strings"
 
 	"github.com/evolbioinfo/goalign/align"
@@ -152,12 +153,12 @@ Output file is an unaligned set of sequences in fasta.
 		fmt.Fprintf(logf, "SeqName\tBestRef\tStartPosition\tExtractedSequenceLength\tFirstStop\n")
 		phasedseqs := align.NewSeqBag(align.UNKNOWN)
 		phasedseqsaa := align.NewSeqBag(align.UNKNOWN)
-		for p := range phased {
-			if p.Err != nil {
-				err = p.Err
-				io.LogError(p.Err)
-				return
-			}
+		var inorder []align.PhasedSequence
+		if inorder, err = phasedInInputOrder(phased, inseqs); err != nil {
+			io.LogError(err)
+			return
+		}
+		for _, p := range inorder {
 			if p.Removed {
 				fmt.Fprintf(logf, "%s\tN/A\tRemoved\tN/A\n", p.NtSeq.Name())
 			} else {
@@ -172,6 +173,27 @@ Output file is an unaligned set of sequences in fasta.
 
 		return
 	},
+}
+
+// phasedInInputOrder reads all the phased sequences from the channel and returns
+// them in the order of the input sequences: the threads deliver them in the order
+// they finish, which changes from run to run when several threads are used.
+// It returns the first error found in the channel.
+func phasedInInputOrder(phased chan align.PhasedSequence, inseqs align.SeqBag) (inorder []align.PhasedSequence, err error) {
+	rank := make(map[string]int, inseqs.NbSequences())
+	for i, s := range inseqs.Sequences() {
+		rank[s.Name()] = i
+	}
+	for p := range phased {
+		if p.Err != nil {
+			return nil, p.Err
+		}
+		inorder = append(inorder, p)
+	}
+	sort.SliceStable(inorder, func(i, j int) bool {
+		return rank[inorder[i].NtSeq.Name()] < rank[inorder[j].NtSeq.Name()]
+	})
+	return
 }
 
 func init() {
